@@ -80,5 +80,15 @@ func init() {
 		seeded("C14", "C14-4", "C14-M1", "captures the first key"),
 		seeded("C15", "C15-3", "C15-V1", "Revert emits"),
 		seeded("C20", "C20-3", "C20-A1", "Consume records"),
+		// round 7
+		seeded("C05", "C05-4", "C05-P1", ""),
+		seeded("C07", "C07-4", "C07-M1", "case dag.Merge"),
+		seeded("C08", "C08-4", "C08-M2", "copies a sort into the legs"),
+		seeded("C10", "C10-4", "C10-X1", "opens a run"),
+		seeded("C13", "C13-4", "C13-V1", ""),
+		seeded("C14", "C13-4", "C14-V1", ""),
+		seeded("C16", "C16-4", "C16-L1", "returns before the end of the index"),
+		seeded("C17", "C17-4", "C17-O4", ""),
+		seeded("C19", "C19-4", "C19-E1", ""),
 	)
 }
